@@ -1,5 +1,5 @@
 """C06 - decoding arbitrary bytes terminates with a documented outcome."""
-from .. import arb
+from .. import arb, observe as O
 from .common import layout
 from .modes import judge_c06
 
@@ -19,9 +19,33 @@ RULE = (
 ASSUMPTIONS = ["Response is always decoded with a valid command code (D-10)"]
 
 
+def live_selector_sweep(ctx, L):
+    """Every structure with a union member x every selector value its selector type accepts *on the live tree* (a
+    revision that adds algorithm ids makes more values valid than the pinned layout knows), followed by zero bytes, a
+    short pattern and nothing: strict decoding must end with a documented outcome for each."""
+    names = sorted(n for n, s_ in L.snap["structs"].items() if s_.get("selectors"))
+    for sname in ctx.mine(names):
+        s_ = L.snap["structs"][sname]
+        for sf in sorted(set(s_["selectors"].values())):
+            stype = L.field_type(sname, sf)
+            if not L.is_prim(stype) or [f[0] for f in s_["fields"]][0] != sf:
+                continue  # (the selector leads the structure in every pinned case but TPMS_ATTEST-like ones, which the random campaigns cover)
+            w = L.width(stype)
+            if w > 2:
+                continue
+            T = O.lib_type(stype)
+            live = [v for v in range(0, 1 << (8 * w)) if ctx.guard(lambda v=v: bool(T(v).is_valid()), "C06:is_valid", {"type": stype, "value": v})]
+            for v in live:
+                for tail in (bytes(96), bytes(range(1, 40)), b""):
+                    if not judge_c06(ctx, L, sname, None, False, v.to_bytes(w, "big") + tail, "live-selector"):
+                        return
+            ctx.count("live-selector-values", len(live))
+
+
 def run_shard(ctx):
     L = layout()
     q = ctx.quick()
+    ctx.run_plain(lambda: live_selector_sweep(ctx, L), "live-selector-sweep")
     ctx.run_given(arb.arbitrary_input(L), lambda x: judge_c06(ctx, L, x[0], x[1], x[2], x[3], x[4]), ctx.share(24000 if q else 400000), name="arbitrary")
     ctx.run_given(arb.faulted_input(L), lambda x: judge_c06(ctx, L, x[0], x[1], x[2], x[3], "faulted"), ctx.share(8000 if q else 150000), name="faulted")
     # very long buffers / lists (around 4096, 8192 and the UINT16 limit), well-formed and cut / extended by one byte
